@@ -118,10 +118,22 @@ def core_files() -> List[dict]:
     return out
 
 
+CORE = -1          # import target standing for the packaged core_defs.yaml (named explicitly by a user file)
+
+
+def core_path() -> str:
+    return str(CORE_DIR / "core_defs.yaml")
+
+
 def with_core(cl: dict) -> Tuple[List[dict], List[int]]:
-    """files of the model closure (core files appended when icd) and the root list"""
+    """files of the model closure (core files appended when icd, or when a file imports the packaged
+    core_defs.yaml explicitly) and the root list"""
     files = list(cl["files"])
-    if cl["icd"]:
+    explicit = any(t == CORE for f in files for t, _ in f["imports"])
+    if explicit:
+        base = len(files)
+        files = [dict(f, imports=[(base if t == CORE else t, w) for t, w in f["imports"]]) for f in files]
+    if cl["icd"] or explicit:
         base = len(files)
         cf = []
         for f in core_files():
@@ -129,7 +141,7 @@ def with_core(cl: dict) -> Tuple[List[dict], List[int]]:
             g["imports"] = [(base + t, w) for t, w in f["imports"]]
             cf.append(g)
         files += cf
-        return files, [base, cl["root"]]
+        return files, ([base, cl["root"]] if cl["icd"] else [cl["root"]])
     return files, [cl["root"]]
 
 
